@@ -43,6 +43,64 @@ pub struct Spawn<'a> {
     pub kill_after: Option<Duration>,
 }
 
+/// like `spawn`, but stdout/stderr are pipes (not regular files, so that RLIMIT_FSIZE in the
+/// child does not apply to them); only for children with small outputs (< 64 KiB per stream)
+pub fn spawn_piped(s: &Spawn) -> std::io::Result<ChildOut> {
+    use std::io::Read;
+    let exe = std::env::current_exe()?;
+    let mut cmd = Command::new(exe);
+    cmd.arg("child")
+        .arg(&s.ctx.prop)
+        .arg("--seed")
+        .arg(s.ctx.seed.to_string())
+        .arg("--shard")
+        .arg(s.ctx.shard.to_string())
+        .arg("--case")
+        .arg(s.ctx.case.to_string())
+        .arg("--dir")
+        .arg(&s.ctx.dir)
+        .arg("--role")
+        .arg(s.role);
+    for (k, v) in &s.extra {
+        cmd.arg(format!("--x-{k}")).arg(v);
+    }
+    cmd.env("FLMON_KEEP_TZ", "1");
+    cmd.stdin(Stdio::null())
+        .stdout(Stdio::piped())
+        .stderr(Stdio::piped());
+    let start = Instant::now();
+    let mut child = cmd.spawn()?;
+    let mut timed_out = false;
+    let status = loop {
+        if let Some(st) = child.try_wait()? {
+            break st;
+        }
+        if start.elapsed() > s.timeout {
+            timed_out = true;
+            let _ = child.kill();
+            break child.wait()?;
+        }
+        std::thread::sleep(Duration::from_millis(1));
+    };
+    let mut stdout = Vec::new();
+    let mut stderr = Vec::new();
+    if let Some(mut o) = child.stdout.take() {
+        let _ = o.read_to_end(&mut stdout);
+    }
+    if let Some(mut e) = child.stderr.take() {
+        let _ = e.read_to_end(&mut stderr);
+    }
+    use std::os::unix::process::ExitStatusExt;
+    Ok(ChildOut {
+        code: status.code(),
+        signal: status.signal(),
+        timed_out,
+        stdout,
+        stderr,
+        wall: start.elapsed(),
+    })
+}
+
 pub fn spawn(s: &Spawn) -> std::io::Result<ChildOut> {
     let exe = std::env::current_exe()?;
     let out_path = s.ctx.dir.join(format!("{}.stdout", s.tag));
